@@ -35,7 +35,9 @@ def _role_ok(role, detail, read) -> Optional[str]:
     if role == "CHARCLASS":
         return None if detail in NAMING_ALPHABETS else f"character test against alphabet {detail!r}"
     if role == "LITERAL":
-        bad = [c for c in (detail or []) if c not in SPECIAL_NAMES]
+        # an IDENTIFIER is never spelled like an entry of the lexer's keyword table (those get their own kinds; the table is
+        # R-18.2's business): comparing with one is inert
+        bad = [c for c in (detail or []) if c not in SPECIAL_NAMES and c not in _lexer_keywords()]
         return None if detail is not None and not bad else f"comparison with the particular spelling(s) {bad}"
     if role == "STORE":
         return None if any(str(detail).endswith(s) for s in ALLOWED_STORES) else f"stored into {detail}"
@@ -48,6 +50,21 @@ def _role_ok(role, detail, read) -> Optional[str]:
     if role == "RETURNED":
         return None
     return f"{role}({detail})"
+
+
+_KW = None
+
+
+def _lexer_keywords() -> Set[str]:
+    global _KW
+    if _KW is None:
+        from ..model import program
+        try:
+            kw = fold_name("keywords", program().mod("lexer/dictionary.py"))
+            _KW = {k for k in kw if isinstance(k, str)} & C_KEYWORDS
+        except Exception:
+            _KW = set()
+    return _KW
 
 
 class _StoreRead:
